@@ -12,3 +12,6 @@ import Heathcliff.Props.C11
 #print axioms HC.C11.batch_round_trip_of_new
 #print axioms HC.C11.batch_encode_decode_of_new
 #print axioms HC.C11.batch_tables_only_for_batching_primes
+#print axioms HC.C11.gen_reverse_bits_u64_eq
+#print axioms HC.C11.gen_batch_index_map_eq
+#print axioms HC.C11.gen_batch_index_map_perm
